@@ -25,7 +25,8 @@ def register(w):
                requires=["S.safe_sel(fspath)", "implies(vfs is not None, vfs.config is self.config)"] + VFSREQ,
                modifies=["self.*", MROOT], raises={},
                ensures=[
-                   "self.selector == old(self.selector)",
+                   "self.selector == old(self.selector)", "self.host == old(self.host)", "self.port == old(self.port)",
+                   "implies(old(self.type) is not None and old(self.type) != '', self.type == old(self.type))", "implies(old(self.name) is not None and old(self.name) != '', self.name == old(self.name))",
                    "implies(%s and not stat.S_ISDIR(statval[0]) and old(self.size) is None, self.size == statval[6])" % UNPOP,
                    "implies(%s and stat.S_ISDIR(statval[0]) and old(self.size) is None, self.size is None)" % UNPOP,
                    "implies(%s and stat.S_ISDIR(statval[0]) and old(self.mimetype) is None, self.mimetype == 'application/gopher-menu')" % UNPOP,
